@@ -70,8 +70,24 @@ ManyView(e, v, tag) ==
      <<"pixelsUnchanged:" \o tag, v.pixels = e.case.px>> >>
 ManyClauses(e) == ManyView(e, e.obs.live, "live") \o ManyView(e, e.obs.reopened, "reopened")
 
+(* rn.big: renaming in a collection with more than a million bins; the labels of the bin table as runs (name, length) *)
+BigView(e, v, tag) ==
+  LET lens == e.case.lens
+      n == Len(lens)
+      NewName(k) == IF \E r \in Range(e.case.renames) : r[1] = k - 1
+                    THEN (CHOOSE r \in Range(e.case.renames) : r[1] = k - 1)[2] ELSE e.case.names0[k]
+      total == FoldLeft(LAMBDA a, b : a + b, 0, lens)
+  IN
+  << <<"namesInOrder:" \o tag, v.names = [k \in 1..n |-> NewName(k)]>>,
+     <<"binLabelsRenamed:" \o tag, v.runs = [k \in 1..n |-> <<NewName(k), lens[k]>>]>>,
+     <<"lookupsByNewName:" \o tag, /\ v.extent_last = <<total - lens[n], total>>
+                                    /\ v.fetch_last_labels = <<NewName(n)>> /\ v.fetch_last_n = lens[n]>>,
+     <<"pixelsUnchanged:" \o tag, v.pixels = e.case.px>> >>
+BigClauses(e) == BigView(e, e.obs.live, "live") \o BigView(e, e.obs.reopened, "reopened")
+
 Clauses(e) ==
   CASE e.drv = "sc.create" -> ScoolClauses(e)
+    [] e.drv = "rn.big" -> BigClauses(e)
     [] e.drv = "rn.many" -> ManyClauses(e)
     [] e.drv = "rn.rename" -> RenameClauses(e)
     [] OTHER -> << <<"unknownDriver", FALSE>> >>
